@@ -162,9 +162,12 @@ def _generate_with_bisect(res: Result, batch: list[dict], always: dict, rejected
         et = _decline_type(g1.stderr)
         res.count("rejected_by_generator")
         rejected[et] = rejected.get(et, 0) + 1
-        if et not in DECLINE_OK:
-            res.violation(f"generator-crash:{et}", f"the generator crashed with {et} on a definition of the supported subset ({d['_origin']}): {g1.stderr.strip().splitlines()[-1][:300]}",
-                          {"definition": defgen.strip_private(d), "stderr": g1.stderr[-3000:]})
+        # every definition that reaches the generator has been accepted by the independent reader of the format (interpret) as part of the
+        # supported subset, and on the unchanged tree the generator declines none of them: declining one ("not implemented") is as much a
+        # failure to translate it as crashing on it
+        res.violation(f"generator-{'declines' if et in DECLINE_OK else 'crash'}:{et}",
+                      f"the generator {'declined' if et in DECLINE_OK else 'crashed on'} a definition of the supported subset with {et} ({d['_origin']}): {g1.stderr.strip().splitlines()[-1][:300]}",
+                      {"definition": defgen.strip_private(d), "stderr": g1.stderr[-3000:]})
     return survivors
 
 
@@ -349,7 +352,7 @@ def run(prop: str, tier_: str) -> int:
     rejected = c.get("rejected_by_generator", 0)
     floor_ok = c.get("programs", 0) >= 100 and c.get("instances_ok", 0) > 1000 and not missing and rejected <= 0.25 * max(1, c.get("programs", 0) + rejected)
     res.assumptions += ["supported subset of the definition format as in DESIGN.md 5.10 (judged by the independent interpreter kv/interpret.py)",
-                        "a definition the generator declines with NotImplementedError/AssertionError/ValidationError counts as rejected, not as a violation"]
+                        "a definition of the supported subset (as judged by kv/interpret.py) that the generator declines or crashes on is a violation"]
     return res.finish(c.get("programs", 0) + c.get("versions", 0) + c.get("instances_encoded", 0), int(res.coverage.get("distinct_programs", 0)),
                       "programs = mutated pinned definitions (version ranges, flexibility, nullability, tagging, defaults, types, fields, api keys, names) and "
                       "random definitions from a grammar over the supported subset; each batch goes through the real generator in a scratch tree; for every "
